@@ -208,7 +208,7 @@ def run(A, R: Report, thorough: bool):
     R.check(last[0] == 'repr' and last[1] == obj, 'R03.4', 'repr_from_instantiation: scalar leaf', key_of('scalar', pretty(last)), 'repr(obj)', f'scalars rendered as `{pretty(last)}`: values of different type share a text', where=where(K.f_rfi))
 
     # ---- R03.5
-    R.rule('R03.5', 'name=value binding for parameters, name=key for inputs, literal separator between the sections', floor=3)
+    R.rule('R03.5', 'name=value binding for parameters, name=key for inputs, literal separator between the sections', floor=2)
     texts = [leaf for leaf, g in branches(K.piece('AbstractParameter.repr')) if leaf != NONE_T]
     ok = bool(texts) and all(leaf[0] == 'cat' and len(leaf[1]) == 3 and leaf[1][1][0] == 'lit' and leaf[1][1][1] and leaf[1][0][0] == 'attr' and leaf[1][2][0] in ('ref', 'rec', 'cond', 'dispatch') for leaf in texts)
     R.check(ok, 'R03.5', 'AbstractParameter.repr', key_of('binding', [pretty(x)[:60] for x in texts]), 'name <literal> value', 'parameter text is not `name <separator> value`: values of different parameters can trade places', where=where(K.f_param_repr))
